@@ -102,6 +102,9 @@ class _Shrinker:
         if self.best.get('cancels'):
             if self.ddmin_list('cancels', lambda s: s['cancels']):
                 progress = True
+        if self.best.get('async_at'):
+            if self.ddmin_list('async_at', lambda s: s['async_at']):
+                progress = True
         return progress
 
     def ddmin_list(self, what: str, getter: Callable[[dict], list]) -> bool:
@@ -153,7 +156,7 @@ class _Shrinker:
                 for path in self._stmt_paths(prog, (ai,)):
                     body = _body_at(self.best, path[:-1])
                     stmt = body[path[-1]]
-                    if stmt[0] in ('BLOCK', 'TRY', 'TIMEOUT', 'CTXRUN'):
+                    if stmt[0] in ('BLOCK', 'ENTER', 'TRY', 'TIMEOUT', 'CTXRUN'):
 
                         def unwrap(s, path=path):
                             b = _body_at(s, path[:-1])
@@ -180,7 +183,7 @@ class _Shrinker:
             for ai, prog in enumerate(self.best['programs']):
                 for path in self._stmt_paths(prog, (ai,)):
                     stmt = _body_at(self.best, path[:-1])[path[-1]]
-                    if stmt[0] == 'BLOCK' and len(stmt[2]) > 1:
+                    if stmt[0] in ('BLOCK', 'CONSTRUCT', 'PREBUILD') and len(stmt[2]) > 1:
                         for key in sorted(stmt[2]):
                             cands.append((f'drop {key} from block {stmt[1]}', self.variant(lambda s, path=path, key=key: _body_at(s, path[:-1])[path[-1]][2].pop(key))))
                     if stmt[0] == 'APPLY' and (stmt[2] != 'eager' or stmt[3] is not None):
@@ -192,6 +195,9 @@ class _Shrinker:
                         cands.append(('simplify APPLY', self.variant(simp)))
                     if stmt[0] in ('APPLY', 'ROUNDTRIP') and stmt[1] != 0:
                         cands.append((f'{stmt[0]} index -> 0', self.variant(lambda s, path=path: _body_at(s, path[:-1])[path[-1]].__setitem__(1, 0))))
+                    if stmt[0] == 'RAISE' and stmt[1] not in ('exc', 'base'):
+                        simple = 'exc' if stmt[1] in program.RAISES_EXC else 'base'
+                        cands.append((f'RAISE {stmt[1]} -> {simple}', self.variant(lambda s, path=path, simple=simple: _body_at(s, path[:-1])[path[-1]].__setitem__(1, simple))))
                     if stmt[0] == 'SLEEP' and stmt[1] != 0:
                         cands.append(('SLEEP -> 0', self.variant(lambda s, path=path: _body_at(s, path[:-1])[path[-1]].__setitem__(1, 0))))
                     if stmt[0] == 'CREATE' and stmt[1] not in ('single:A',):
